@@ -352,7 +352,7 @@ async def collide_case(loop, out, stats, fps):
     from rv.rigs import Rig, key_of
 
     for kind in ("mem", "redis", "rabbit"):
-        for variant in ("queue", "priority"):
+        for variant in ("queue", "priority", "topic"):
             rig = Rig(kind, loop, latency=None)
             try:
                 conn = rig.make_connection("p1")
@@ -362,7 +362,7 @@ async def collide_case(loop, out, stats, fps):
                     await mb.queue_declare(q)
                 P = mb.PARAMETERS_CLASS
                 k1 = key_of(conn, "same", "t", "qa", 5)
-                k2 = key_of(conn, "same", "t", "qb", 5) if variant == "queue" else key_of(conn, "same", "t", "qa", 9)
+                k2 = {"queue": key_of(conn, "same", "t", "qb", 5), "priority": key_of(conn, "same", "t", "qa", 9), "topic": key_of(conn, "same", "t2", "qa", 5)}[variant]
                 await mb.enqueue(k1, "one", P())
                 await mb.enqueue(k2, "two", P())
                 c1 = mb.get_consumer(k1.queue, None, None, MessageCategory.NORMAL)
@@ -389,7 +389,26 @@ async def collide_case(loop, out, stats, fps):
                     held = sum(len(ch.unacked) for c in rig.server.conns for ch in c.channels.values())
                 if held != 1:
                     out.append(V("key_collision", kind, f"in-flight-mark/{variant}", f"two messages with id 'same' (differing in {variant}) were both in flight; after acknowledging one, {held} are marked in flight (expected 1)"))
+                # ... and it is the OTHER one that is still in flight, not the one just acknowledged
+                still = None
+                if kind == "mem":
+                    still = sorted(m.payload for q in mb.queues.values() for m in q.processing)
+                elif kind == "rabbit":
+                    import json as _json
+
+                    still = sorted(_json.loads(m.body)["payload"] for c in rig.server.conns for ch in c.channels.values() for (_qn, m, _ct) in ch.unacked.values())
+                if still is not None and held == 1 and still != [b[1]]:
+                    out.append(V("key_collision", kind, f"wrong-one-settled/{variant}", f"two messages with id 'same' (differing in {variant}) in flight; acknowledging {a[1]!r} settled {b[1]!r}: still in flight {still}"))
                 await mb.ack(b[0])
+                await asyncio.sleep(0.05)
+                if kind == "mem":
+                    left = sum(len(q.processing) for q in mb.queues.values())
+                elif kind == "rabbit":
+                    left = sum(len(ch.unacked) for c in rig.server.conns for ch in c.channels.values())
+                else:
+                    left = len(rig.server.d.get(b"processing", {}))
+                if left:
+                    out.append(V("key_collision", kind, f"never-settled/{variant}", f"both messages with id 'same' (differing in {variant}) were acknowledged, {left} is still in flight"))
                 await c1.finish()
                 if c2 is not c1:
                     await c2.finish()
